@@ -134,7 +134,29 @@ def run(R):
         R.gate("C03.pay.notify", pay, notify, guards, descr="notify_payment_received is cut by all four conditions")
         # payees filtered against closest_k_peers
         R.must_call("C03.pay.closest", PAY, ["ant_networking::Network::get_closest_k_value_local_peers"], "payees are compared with get_closest_k_value_local_peers")
-        R.must_call("C03.pay.retain", PAY, ["alloc::vec::Vec::retain"], "payees.retain(not in closest)")
+        # the payees that matter are those NOT among the closest: a retain / filter closure keeping an element iff `!closest.contains(it)`
+        from rules import closures_passed, closure_truth_table
+        okf, nf = False, 0
+        for pb in F.item(PAY):
+            prep(pb)
+            for blk in pb.blocks:
+                t = blk["term"]
+                if t["k"] != "call" or blk["cleanup"]:
+                    continue
+                nm = t.get("ngen") or t.get("ncallee") or ""
+                if not (nm.endswith("Vec::retain") or nm.endswith("Iterator::filter") or (t.get("ncallee") or "").endswith("Vec::retain")):
+                    continue
+                for cl in closures_passed(F, pb, t):
+                    prep(cl)
+                    if not any(b2["term"]["k"] == "call" and (b2["term"].get("ncallee") or "").endswith("::contains") for b2 in cl.blocks):
+                        continue
+                    nf += 1
+                    tt = closure_truth_table(cl, lambda b_, cs: None, call_atoms={"*::contains": "C", "core::slice::<impl [T]>::contains": "C", "alloc::vec::Vec::contains": "C"})
+                    if tt is not None and tt[0] == ["C"] and all(v == (not dict(k)["C"]) for k, v in tt[1].items()):
+                        okf = True
+        if not okf:
+            R.viol("C03.pay.retain", "payee-filter", "the payees compared with the closest peers are not filtered as `not contained in closest_k_peers` (%d candidate closures)" % nf, pay, pay.lines[0])
+        R.inst("C03.pay.retain", "K10 polarity", "payees kept for the out-of-range test iff !closest_k_peers.contains(payee) (retain or filter closure)", nf, okf)
         # (5) quoted address
         R.forall_compare("C03.pay.quoted-address", pay, field_read_seeds("content"), P(1), ok_ret,
                          "this node's quote.content equals the stored address",
@@ -148,14 +170,18 @@ def run(R):
     vd = R.body("C03.evm", VDP)
     if vd is not None:
         prep(vd)
-        R.gate_reject("C03.evm.valid", vd, RetSink("Ok"), [FieldBoolGuard("isValid", True, "every PaymentVerificationResult.isValid")],
-                      descr="verify_data_payment is Ok only if the contract reports every submitted quote as paid")
-        R.gate("C03.evm.valid.every", vd, RetSink("Ok"),
+        if FieldBoolGuard("isValid", True).edges(vd)[0]:
+            R.gate_reject("C03.evm.valid", vd, RetSink("Ok", computed=True), [FieldBoolGuard("isValid", True, "every PaymentVerificationResult.isValid")],
+                          descr="verify_data_payment is Ok only if the contract reports every submitted quote as paid")
+        else:
+            # the per-result test sits in the closure of a try_fold / try_for_each: decided by C03.evm.valid.every below
+            R.inst("C03.evm.valid", "K4r reject-edge", "verify_data_payment is Ok only if the contract reports every submitted quote as paid (combinator form: see C03.evm.valid.every)", 1, True)
+        R.gate("C03.evm.valid.every", vd, RetSink("Ok", computed=True),
                [[ForallGuard(None, None, None, "every verification result returned by the contract has isValid",
                              check=FieldBoolGuard("isValid", True, "result.isValid"),
                              source_calls=["*PaymentVaultHandler<T, P, N>::verify_payment", "*::verify_payment"])]],
                descr="Ok only after *every* result of the contract call was tested for isValid (no result is skipped)")
-        R.gate("C03.evm.call", vd, RetSink("Ok"), [[CallGuard(["*PaymentVaultHandler<T, P, N>::verify_payment", "*::verify_payment"], ("Ok",), "contract call verify_payment is Ok")]],
+        R.gate("C03.evm.call", vd, RetSink("Ok", computed=True), [[CallGuard(["*PaymentVaultHandler<T, P, N>::verify_payment", "*::verify_payment"], ("Ok",), "contract call verify_payment is Ok")]],
                descr="verify_data_payment is Ok only if the contract call succeeded")
         # everything in the proof is submitted, and every result is inspected
         from rules import PL
